@@ -19,6 +19,9 @@ inductive Pending where
   | none
   | write (k : Key) (ts : Nat) (m : Option Meta) (d : Data) (ok : Bool) (switched : Bool) (cancelled : Bool := false)
   | delete (k : Key) (ts : Nat) (m : Option Meta) (oip : Bool) (n : Option Nat) (cancelled : Bool := false)
+  /-- `race2`: two acknowledged writes of one key with one timestamp, the first started (and reserved its place in the
+      file) before the second -/
+  | write2 (k : Key) (ts : Nat) (a b : Data)
 deriving Repr, Inhabited
 
 structure St where
@@ -108,7 +111,10 @@ def onStates (st : St) (obs : List BlobSt) : St × String :=
   let grow := obs.map (fun b => (b, b.count - (histGet st.hist b.id).length))
   let shrink := obs.any (fun b => b.count < (histGet st.hist b.id).length)
   let st' := { st with blobs := obs, maxId := maxId, fresh := false, pending := .none }
+  -- a blob that holds records can leave the storage only at a start (quarantine / skipped as unreadable)
+  let vanished := st.blobs.any (fun b => b.count > 0 && !(obs.any (·.id == b.id))) && !st.restarted && !st.fresh
   if shrink then ({ st' with hist := hist0 }, "MISMATCH records-lost")
+  else if vanished then ({ st' with hist := hist0 }, "MISMATCH blob-vanished: a blob with records is neither active nor closed any more")
   else
     let st' := { st' with limbo := if st.restarted then [] else st.limbo, restarted := false }
     match st.pending with
@@ -163,6 +169,12 @@ def onStates (st : St) (obs : List BlobSt) : St × String :=
           ({ st' with hist := hist1 }, "MISMATCH write-not-in-active")
         else ({ st' with hist := hist1 }, "ok")
       | _ => ({ st' with hist := hist0 }, "MISMATCH write-placement")
+    | .write2 k ts a b =>
+      let ra : Rec := { key := k, ts := ts, del := false, mt := none, data := a }
+      let rb : Rec := { key := k, ts := ts, del := false, mt := none, data := b }
+      match grow.filter (fun g => g.2 > 0) with
+      | [(bl, 2)] => ({ st' with hist := histSet hist0 bl.id (histGet hist0 bl.id ++ [ra, rb]) }, "ok")
+      | _ => ({ st' with hist := hist0 }, "MISMATCH race2-placement")
     | .delete k ts m oip n cancelled =>
       let r : Rec := { key := k, ts := ts, del := true, mt := m.getD none, data := ⟨0, 0⟩ }
       if grow.any (fun g => g.2 > 1) then ({ st' with hist := hist0 }, "MISMATCH delete-placement")
@@ -228,6 +240,11 @@ def step (st : St) (line : String) : St × String :=
       | some k, some ts, some m, some len, some seed =>
         ({ st with pending := .write k ts m ⟨len, if len == 0 then 0 else seed⟩ (out == "ok" || out.startsWith "ok ") (out.endsWith " switched") cancelled }, "ok")
       | _, _, _, _, _ => (st, "skip")
+    | ["race2", _, k, ts, la, sa, lb, sb] =>
+      match hexNat k, ts.toNat?, la.toNat?, sa.toNat?, lb.toNat?, sb.toNat? with
+      | some k, some ts, some la, some sa, some lb, some sb =>
+        if out == "ok ok" then ({ st with pending := .write2 k ts ⟨la, sa⟩ ⟨lb, sb⟩ }, "ok") else (st, "MISMATCH race2: " ++ out)
+      | _, _, _, _, _, _ => (st, "skip")
     | ["d", k, ts, m, oip] =>
       match hexNat k, ts.toNat?, parseMeta m, oip.toNat? with
       | some k, some ts, some m, some oip =>
